@@ -30,7 +30,7 @@ func NewEmptyMappedAttributeExpr() *MappedAttributeExpr {
 // NewMappedAttributeExpr instantiates a mapped attribute expression for the
 // given attribute. The type of att must be Object.
 func NewMappedAttributeExpr(att *AttributeExpr) *MappedAttributeExpr {
-	if att == nil {
+	if att == nil || att.Type == nil {
 		return NewEmptyMappedAttributeExpr()
 	}
 	if !IsObject(att.Type) {
